@@ -3,6 +3,7 @@ package main
 import (
 	"fmt"
 	"math/big"
+	"os"
 	"sort"
 	"strings"
 	"sync"
@@ -128,6 +129,9 @@ type Explorer struct {
 	idx     int
 	pc      []*Term
 	known   map[int]bool
+	dom     map[int]*byteDom // 8-bit variables constrained only by single-variable comparisons with constants
+	tangled map[int]bool     // variables that occur in a multi-variable / non-pattern path-condition conjunct
+	DomHits int
 	vars    []*Term // nondet variables created on this path, in order
 	varSeen map[string]bool
 	steps   int64
@@ -146,7 +150,152 @@ func (e *Explorer) abort(kind, reason string) {
 	panic(pathAbort{reason: reason, kind: kind})
 }
 
+// byteDom: set of values still possible for an 8-bit variable
+type byteDom [4]uint64
+
+func fullDom() *byteDom           { return &byteDom{^uint64(0), ^uint64(0), ^uint64(0), ^uint64(0)} }
+func (d *byteDom) has(v int) bool { return d[v>>6]>>(uint(v)&63)&1 == 1 }
+func (d *byteDom) empty() bool    { return d[0]|d[1]|d[2]|d[3] == 0 }
+func (d *byteDom) and(o *byteDom) *byteDom {
+	return &byteDom{d[0] & o[0], d[1] & o[1], d[2] & o[2], d[3] & o[3]}
+}
+func (d *byteDom) andNot(o *byteDom) *byteDom {
+	return &byteDom{d[0] &^ o[0], d[1] &^ o[1], d[2] &^ o[2], d[3] &^ o[3]}
+}
+
+// satSet: if c is a comparison of one 8-bit variable with a constant, the variable and the set of values making c true
+func satSet(c *Term) (*Term, *byteDom) {
+	neg := false
+	for c.Op == "not" {
+		c = c.Args[0]
+		neg = !neg
+	}
+	if len(c.Args) != 2 {
+		return nil, nil
+	}
+	a, b := c.Args[0], c.Args[1]
+	var v *Term
+	var k int
+	varLeft := false
+	switch {
+	case a.Op == "var" && a.W == 8 && b.Op == "const":
+		v, k, varLeft = a, int(b.K), true
+	case b.Op == "var" && b.W == 8 && a.Op == "const":
+		v, k = b, int(a.K)
+	default:
+		return nil, nil
+	}
+	d := &byteDom{}
+	for x := 0; x < 256; x++ {
+		l, r := x, k
+		if !varLeft {
+			l, r = k, x
+		}
+		var t bool
+		switch c.Op {
+		case "=":
+			t = l == r
+		case "bvult":
+			t = l < r
+		case "bvule":
+			t = l <= r
+		case "bvslt":
+			t = int8(l) < int8(r)
+		case "bvsle":
+			t = int8(l) <= int8(r)
+		default:
+			return nil, nil
+		}
+		if t != neg {
+			d[x>>6] |= 1 << (uint(x) & 63)
+		}
+	}
+	return v, d
+}
+
+func termVars(t *Term, acc map[int]bool, seen map[int]bool) {
+	if seen[t.ID] {
+		return
+	}
+	seen[t.ID] = true
+	if t.Op == "var" {
+		acc[t.ID] = true
+	}
+	for _, a := range t.Args {
+		termVars(a, acc, seen)
+	}
+}
+
+var qstat = os.Getenv("VX_QSTAT") != ""
+
+func shape(t *Term, depth int) string {
+	if depth == 0 || len(t.Args) == 0 {
+		if t.Op == "var" {
+			return fmt.Sprintf("v%d", t.W)
+		}
+		if t.IsConst() {
+			return "k"
+		}
+		return t.Op + "…"
+	}
+	parts := []string{}
+	for _, a := range t.Args {
+		parts = append(parts, shape(a, depth-1))
+	}
+	return t.Op + "(" + strings.Join(parts, ",") + ")"
+}
+
+func flattenAnd(c *Term, out []*Term) []*Term {
+	if c.Op == "and" {
+		out = flattenAnd(c.Args[0], out)
+		return flattenAnd(c.Args[1], out)
+	}
+	return append(out, c)
+}
+
+func (e *Explorer) noteDomain(c *Term) {
+	if c.Op == "and" {
+		e.noteDomain(c.Args[0])
+		e.noteDomain(c.Args[1])
+		return
+	}
+	if v, d := satSet(c); v != nil && !e.tangled[v.ID] {
+		cur := e.dom[v.ID]
+		if cur == nil {
+			cur = fullDom()
+		}
+		e.dom[v.ID] = cur.and(d)
+		return
+	}
+	// any other conjunct entangles its variables: domain reasoning is no longer complete for them
+	if qstat {
+		e.sh.mu.Lock()
+		e.sh.Notes["tangling conjunct shape: "+shape(c, 4)]++
+		e.sh.mu.Unlock()
+	}
+	acc := map[int]bool{}
+	termVars(c, acc, map[int]bool{})
+	for id := range acc {
+		e.tangled[id] = true
+		delete(e.dom, id)
+	}
+}
+
+// domainDecide: (trueFeasible, falseFeasible, ok) from the byte domain alone; ok=false → ask the solver
+func (e *Explorer) domainDecide(c *Term) (bool, bool, bool) {
+	v, d := satSet(c)
+	if v == nil || e.tangled[v.ID] {
+		return false, false, false
+	}
+	cur := e.dom[v.ID]
+	if cur == nil {
+		cur = fullDom()
+	}
+	return !cur.and(d).empty(), !cur.andNot(d).empty(), true
+}
+
 func (e *Explorer) addPC(c *Term) {
+	e.noteDomain(c)
 	e.pc = append(e.pc, c)
 	e.known[c.ID] = true
 	if c.Op == "not" {
@@ -199,6 +348,19 @@ func (e *Explorer) Branch(c *Term) bool {
 	if c.IsConst() {
 		return c.BoolVal()
 	}
+	if e.sh.stop && !e.concrete {
+		e.abort("stop", "exploration stopped")
+	}
+	if !e.sh.deadline.IsZero() && !e.concrete && time.Now().After(e.sh.deadline) {
+		e.sh.mu.Lock()
+		if !e.sh.stop {
+			e.sh.stop = true
+			e.sh.Aborted["bound: time limit reached"]++
+			e.sh.cond.Broadcast()
+		}
+		e.sh.mu.Unlock()
+		e.abort("stop", "time limit")
+	}
 	if e.concrete {
 		panic(fmt.Sprintf("concrete replay met symbolic condition %s", body(c)))
 	}
@@ -208,10 +370,30 @@ func (e *Explorer) Branch(c *Term) bool {
 	if v, ok := e.lookupKnown(c); ok {
 		return v
 	}
+	// A boolean combination whose atoms are all single-byte comparisons over untangled variables is decided atom by
+	// atom (short-circuit order): every decision is then a single-variable fact, needs no solver query and keeps
+	// the variables untangled. (The path condition stays equivalent: the cases are disjoint and exhaustive.)
+	switch c.Op {
+	case "and", "or", "ite":
+		if e.decomposable(c, 0) {
+			r := e.branchTree(c)
+			e.known[c.ID] = r
+			return r
+		}
+	}
 	e.ntriv = true
 	if e.idx < len(e.prefix) {
 		d := e.prefix[e.idx]
 		e.idx++
+		if d.kind == 'd' { // conjunction falsified at conjunct d.val, earlier conjuncts true
+			conj := flattenAnd(c, nil)
+			for i := 0; i < int(d.val); i++ {
+				e.addPC(conj[i])
+			}
+			e.addPC(e.tb.Not(conj[d.val]))
+			e.known[c.ID] = false
+			return false
+		}
 		if d.kind != 'b' && d.kind != 'f' {
 			panic(fmt.Sprintf("replay misaligned: expected branch, have %c at %d (%s)", d.kind, e.idx-1, e.entry))
 		}
@@ -226,14 +408,25 @@ func (e *Explorer) Branch(c *Term) bool {
 		}
 		return d.val == 1
 	}
-	rT := e.s.CheckWith(c)
-	tOK := rT != "unsat"
-	fOK := true
-	if tOK {
-		rF := e.s.CheckWith(e.tb.Not(c))
-		fOK = rF != "unsat"
-		if rT != "sat" || (rF != "sat" && rF != "unsat") {
-			e.noteUnknown("feasibility query: " + rT + "/" + rF)
+	var tOK, fOK bool
+	if t, f, ok := e.domainDecide(c); ok {
+		tOK, fOK = t, f
+		e.DomHits++
+	} else {
+		if qstat {
+			e.sh.mu.Lock()
+			e.sh.Notes["solver-branch shape: "+shape(c, 3)]++
+			e.sh.mu.Unlock()
+		}
+		rT := e.s.CheckWith(c)
+		tOK = rT != "unsat"
+		fOK = true
+		if tOK {
+			rF := e.s.CheckWith(e.tb.Not(c))
+			fOK = rF != "unsat"
+			if rT != "sat" || (rF != "sat" && rF != "unsat") {
+				e.noteUnknown("feasibility query: " + rT + "/" + rF)
+			}
 		}
 	}
 	if !tOK && !fOK {
@@ -257,6 +450,117 @@ func (e *Explorer) Branch(c *Term) bool {
 	return tOK
 }
 
+// branchConj: a conjunction of single-byte comparisons over untangled variables is decided from the byte domains
+// alone, and its negation is split into the disjoint cases "c0..c(i-1) hold, ci fails" so that the path condition
+// stays a conjunction of single-variable facts (no solver query, variables stay untangled).
+func (e *Explorer) branchConj(c *Term) (bool, bool) {
+	conj := flattenAnd(c, nil)
+	if len(conj) < 2 || len(conj) > 64 {
+		return false, false
+	}
+	type vd struct {
+		v *Term
+		d *byteDom
+	}
+	vds := make([]vd, len(conj))
+	for i, ci := range conj {
+		v, d := satSet(ci)
+		if v == nil || e.tangled[v.ID] {
+			return false, false
+		}
+		vds[i] = vd{v, d}
+	}
+	tmp := map[int]*byteDom{}
+	get := func(id int) *byteDom {
+		if d, ok := tmp[id]; ok {
+			return d
+		}
+		if d, ok := e.dom[id]; ok {
+			return d
+		}
+		return fullDom()
+	}
+	var opts []decision
+	prefixOK := true
+	for i := range conj {
+		if !prefixOK {
+			break
+		}
+		cur := get(vds[i].v.ID)
+		if !cur.andNot(vds[i].d).empty() {
+			opts = append(opts, decision{'d', uint64(i)})
+		}
+		nd := cur.and(vds[i].d)
+		if nd.empty() {
+			prefixOK = false
+		}
+		tmp[vds[i].v.ID] = nd
+	}
+	if prefixOK {
+		opts = append([]decision{{'b', 1}}, opts...)
+	}
+	e.DomHits++
+	if len(opts) == 0 {
+		e.abort("infeasible", "infeasible path")
+	}
+	for i := len(opts) - 1; i >= 1; i-- {
+		alt := append(append([]decision{}, e.prefix[:e.idx]...), opts[i])
+		e.sh.pushWork(alt)
+	}
+	d := opts[0]
+	e.prefix = append(e.prefix[:e.idx], d)
+	e.idx++
+	if d.kind == 'b' {
+		e.addPC(c)
+		return true, true
+	}
+	for i := 0; i < int(d.val); i++ {
+		e.addPC(conj[i])
+	}
+	e.addPC(e.tb.Not(conj[d.val]))
+	e.known[c.ID] = false
+	return false, true
+}
+
+func (e *Explorer) decomposable(c *Term, depth int) bool {
+	if depth > 200 {
+		return false
+	}
+	switch c.Op {
+	case "true", "false":
+		return true
+	case "not":
+		return e.decomposable(c.Args[0], depth+1)
+	case "and", "or":
+		return e.decomposable(c.Args[0], depth+1) && e.decomposable(c.Args[1], depth+1)
+	case "ite":
+		return c.W == 0 && e.decomposable(c.Args[0], depth+1) && e.decomposable(c.Args[1], depth+1) && e.decomposable(c.Args[2], depth+1)
+	}
+	v, _ := satSet(c)
+	return v != nil && !e.tangled[v.ID]
+}
+
+func (e *Explorer) branchTree(c *Term) bool {
+	switch c.Op {
+	case "true":
+		return true
+	case "false":
+		return false
+	case "not":
+		return !e.branchTree(c.Args[0])
+	case "and":
+		return e.branchTree(c.Args[0]) && e.branchTree(c.Args[1])
+	case "or":
+		return e.branchTree(c.Args[0]) || e.branchTree(c.Args[1])
+	case "ite":
+		if e.branchTree(c.Args[0]) {
+			return e.branchTree(c.Args[1])
+		}
+		return e.branchTree(c.Args[2])
+	}
+	return e.Branch(c)
+}
+
 func (e *Explorer) noteUnknown(what string) {
 	e.sh.mu.Lock()
 	e.sh.Notes["solver-unknown: "+what]++
@@ -272,6 +576,17 @@ func (e *Explorer) Concretize(t *Term, limit int) *Term {
 		panic("concrete replay met symbolic value")
 	}
 	e.ntriv = true
+	// an ite-tree is concretised by branching on its conditions (cheap when they are byte comparisons)
+	for t.Op == "ite" {
+		if e.Branch(t.Args[0]) {
+			t = t.Args[1]
+		} else {
+			t = t.Args[2]
+		}
+	}
+	if t.IsConst() {
+		return t
+	}
 	if e.idx < len(e.prefix) {
 		d := e.prefix[e.idx]
 		e.idx++
@@ -317,6 +632,34 @@ func (e *Explorer) Concretize(t *Term, limit int) *Term {
 	k := e.tb.Const(t.W, vals[0])
 	e.addPC(e.tb.Eq(t, k))
 	return k
+}
+
+// Choose: fresh nondeterministic choice in [0,n), one path per value; no solver query is needed for a fresh variable.
+func (e *Explorer) Choose(name string, n int) *Term {
+	v := e.NewVar(name, 64)
+	if e.concrete {
+		return v
+	}
+	e.ntriv = true
+	var k uint64
+	if e.idx < len(e.prefix) {
+		d := e.prefix[e.idx]
+		e.idx++
+		if d.kind != 'v' {
+			panic(fmt.Sprintf("replay misaligned: expected choice, have %c (%s)", d.kind, e.entry))
+		}
+		k = d.val
+	} else {
+		for i := n - 1; i >= 1; i-- {
+			alt := append(append([]decision{}, e.prefix[:e.idx]...), decision{'v', uint64(i)})
+			e.sh.pushWork(alt)
+		}
+		e.prefix = append(e.prefix[:e.idx], decision{'v', 0})
+		e.idx++
+	}
+	kt := e.tb.Const(64, k)
+	e.addPC(e.tb.Eq(v, kt))
+	return kt
 }
 
 func (e *Explorer) Assume(c *Term) {
@@ -480,6 +823,8 @@ func (e *Explorer) runPath(p []decision, fn func()) {
 	e.idx = 0
 	e.pc = e.pc[:0]
 	e.known = map[int]bool{}
+	e.dom = map[int]*byteDom{}
+	e.tangled = map[int]bool{}
 	e.vars = e.vars[:0]
 	e.steps = 0
 	e.trace = e.trace[:0]
